@@ -44,7 +44,7 @@ type faultRun struct {
 // since the transaction began.
 func (fr *faultRun) staleIOError(where string, err error) bool {
 	w := fr.w
-	if err == nil || !isIOErr(err) || w.Disk.AddressSpaceExceeded || w.Disk.Injected() != fr.injectedAtBegin {
+	if err == nil || !isIOErr(err) || w.Disk.EnvLimitHit() || w.Disk.Injected() != fr.injectedAtBegin {
 		return false
 	}
 	w.violate("stale-io-error", "stale-io-error:"+where, "%s failed with an I/O error (%s) although no I/O call failed since this transaction began (injected faults so far: %d): the error of an earlier, aborted transaction leaked into this one", where, allKinds(err), fr.injectedAtBegin)
